@@ -1251,8 +1251,13 @@ pub mod implementations {
         let arg = ctx.get_last_op_item().unwrap();
 
         // the operand may be a reference into a list or an object (`flags[i] && f()`, `obj.ok || g()`)
-        let Primitive::Bool(val) = *arg.move_out_of_heap_primitive_borrow()? else {
-            bail!("store_skip can only operate on bool (found {arg})");
+        // ... or a present optional handed out by a built-in, which arrives boxed (`s.parse_bool() && f()`)
+        let val = match arg.move_out_of_heap_primitive_borrow()?.as_ref() {
+            Primitive::Bool(val) => *val,
+            Primitive::Optional(Some(inner)) if matches!(inner.as_ref(), Primitive::Bool(..)) => {
+                matches!(inner.as_ref(), Primitive::Bool(true))
+            }
+            _ => bail!("store_skip can only operate on bool (found {arg})"),
         };
 
         if predicate == 1 {
